@@ -19,6 +19,12 @@
   Order convention of Tree.c: `c = cmp(nodeKey, key)`; `c < 0` → LEFT.  Larger keys are to the left, so the in-order
   sequence left→right (`toList`, what forward iteration yields) is strictly *descending*.
 
+  Read from the source on every run (CelloGen/Tree.lean, written by translate/g_tree.py) and USED here, so that the driver
+  follows the source and the theorems of CelloProofs/Props/C03.lean about these data break when the source changes them:
+  the offsets and widths of the node payload (`Lay.keyOff` … `Lay.moveLen`, `hdrWords`), the argument order and the sign
+  tests of the four descent loops (`orient` with `setDescent` / `getDescent` / `memDescent` / `remDescent`), and the
+  `self is obj` guard of `Tree_Assign` (`step`).
+
   Node payload.  After the three link words a node is `header | key bytes | header | value bytes`, with the widths
   `sizeof(struct Header)`, `m->ksize`, `m->vsize` (`Tree_Alloc`, `Tree_Key`, `Tree_Val`).  Keys and values are arbitrary
   types `α`, `β` whose bytes are given by `Packed` (8-byte words).  The only place where Tree.c moves raw bytes is the
@@ -32,7 +38,9 @@
   happens from a valid tree.  Documented failures (KeyError, FormatError) are `Outcome.raised`, and the state is
   returned also then.
 -/
+import CelloGen.Tree
 namespace Cello.RB
+open CelloGen.Tree (SizeTerm Side Descent)
 
 inductive Color where
   | R | B
@@ -144,6 +152,18 @@ def find (cmp : α → α → Ordering) : T α β → α → Option β
     | .lt => find cmp l k
     | .gt => find cmp r k
 
+/-! ## the sign tests of the descent loops, as the source has them -/
+
+/-- A descent loop of Tree.c computes `c = cmp(Tree_Key(m, node), key)` (or with the arguments the other way round) and goes
+    to one child when `c < 0` and to one child when `c > 0` (`CelloGen.Tree.Descent`, read from the source). `insAt`,
+    `find` and `remAt` above are written for "`.lt` → left, `.gt` → right"; `orient d cmp` is the comparison that makes them
+    take the turns the source's loop `d` takes. For `d = ⟨true, .left, .right⟩` it is `cmp` itself. -/
+def orient (d : Descent) (cmp : α → α → Ordering) (nk k : α) : Ordering :=
+  match (if d.nodeFirst then cmp nk k else cmp k nk) with
+  | .eq => .eq
+  | .lt => if d.neg = .left then .lt else .gt
+  | .gt => if d.pos = .left then .lt else .gt
+
 /-! ## Tree_Rem_Fix -/
 
 /-- the "sibling is red" step of `Tree_Rem_Fix`: parent red, sibling black, rotate at the parent towards the node.
@@ -237,18 +257,42 @@ structure Lay where
   vs : Nat
 deriving DecidableEq, Repr
 
-/-- offset of the key object after the link words: `Tree_Key` = node + 3*sizeof(var) + sizeof(struct Header) -/
-def Lay.keyOff (y : Lay) : Nat := y.hdr
-/-- offset of the value object after the link words: `Tree_Val` = … + sizeof(struct Header) + ksize + sizeof(struct Header) -/
-def Lay.valOff (y : Lay) : Nat := y.hdr + y.ks + y.hdr
-/-- what `Tree_Alloc` reserves after the link words and what `Tree_Rem`'s memcpy moves:
-    sizeof(struct Header) + ksize + sizeof(struct Header) + vsize -/
-def Lay.entryLen (y : Lay) : Nat := y.hdr + y.ks + y.hdr + y.vs
+/-- a size / offset expression of Tree.c (a sum of `sizeof(struct Header)`, `m->ksize`, `m->vsize`), in words -/
+def Lay.eval (y : Lay) : List SizeTerm → Nat
+  | [] => 0
+  | .hdr :: ts => y.hdr + y.eval ts
+  | .ksize :: ts => y.ks + y.eval ts
+  | .vsize :: ts => y.vs + y.eval ts
 
-/-- the payload of a node holding `e` (both headers as `header_init` wrote them) -/
+/-! The offsets below are counted from the start of the payload (`node + 3 * sizeof(var)`), and are the expressions the
+    source has at these places NOW (CelloGen.Tree); `C03_layout_current_source` says what they evaluate to. -/
+
+/-- where `Tree_Alloc` puts the header of the key object: `header_init(node + 3*sizeof(var) …)` -/
+def Lay.keyHdrOff (y : Lay) : Nat := y.eval CelloGen.Tree.keyHeaderOff
+/-- offset of the key object: `Tree_Key` = node + 3*sizeof(var) + sizeof(struct Header) -/
+def Lay.keyOff (y : Lay) : Nat := y.eval CelloGen.Tree.keyOff
+/-- where `Tree_Alloc` puts the header of the value object: `header_init(node + 3*sizeof(var) + sizeof(struct Header) + ksize …)` -/
+def Lay.valHdrOff (y : Lay) : Nat := y.eval CelloGen.Tree.valHeaderOff
+/-- offset of the value object: `Tree_Val` = … + sizeof(struct Header) + ksize + sizeof(struct Header) -/
+def Lay.valOff (y : Lay) : Nat := y.eval CelloGen.Tree.valOff
+/-- what `Tree_Alloc` reserves after the link words: sizeof(struct Header) + ksize + sizeof(struct Header) + vsize -/
+def Lay.entryLen (y : Lay) : Nat := y.eval CelloGen.Tree.allocSize
+/-- what the memcpy of `Tree_Rem` moves: sizeof(struct Header) + ksize + sizeof(struct Header) + vsize -/
+def Lay.moveLen (y : Lay) : Nat := y.eval CelloGen.Tree.remMoveSize
+
+/-- a store of the words `ws` at word `off` of a buffer (beyond its end: a heap overflow in C; here the buffer grows) -/
+def writeAt (off : Nat) (ws buf : List Word) : List Word :=
+  (buf ++ List.replicate (off + ws.length - buf.length) (Word.int 0)).take off ++ ws ++
+    (buf ++ List.replicate (off + ws.length - buf.length) (Word.int 0)).drop (off + ws.length)
+
+/-- the payload of a node holding `e`: zeroed by `calloc`, both headers as `header_init` wrote them in `Tree_Alloc`, then
+    the key stored at `Tree_Key` and the value at `Tree_Val` (`assign(Tree_Key(m, node), key)`, `assign(Tree_Val(m, node), val)`) -/
 def entryWords [Packed α] [Packed β] (y : Lay) (e : α × β) : List Word :=
-  List.replicate y.hdr (Word.hdr true) ++ Packed.words e.1 ++
-    (List.replicate y.hdr (Word.hdr false) ++ Packed.words e.2)
+  writeAt y.valOff (Packed.words e.2)
+    (writeAt y.keyOff (Packed.words e.1)
+      (writeAt y.valHdrOff (List.replicate y.hdr (Word.hdr false))
+        (writeAt y.keyHdrOff (List.replicate y.hdr (Word.hdr true))
+          (List.replicate y.entryLen (Word.int 0)))))
 
 /-- `memcpy(dst, src, n)` on word lists of the same allocation size -/
 def memcpyW (n : Nat) (dst src : List Word) : List Word := src.take n ++ dst.drop n
@@ -261,7 +305,7 @@ def valAt (y : Lay) (b : List Word) : List Word := (b.drop y.valOff).take y.vs
     `memcpy(node + 3*sizeof(var), pred + 3*sizeof(var), sizeof(Header) + ksize + sizeof(Header) + vsize)`,
     then the key and value read back from `node`. `none` = the bytes there are not a key / value of the types. -/
 def relocate [Packed α] [Packed β] (y : Lay) (dst src : α × β) : Option (α × β) :=
-  let b := memcpyW y.entryLen (entryWords y dst) (entryWords y src)
+  let b := memcpyW y.moveLen (entryWords y dst) (entryWords y src)
   match (Packed.ofWords (keyAt y b) : Option α), (Packed.ofWords (valAt y b) : Option β) with
   | some k, some v => some (k, v)
   | _, _ => none
@@ -336,9 +380,9 @@ structure Tree (α β : Type) where
   vsize : Nat
 deriving DecidableEq
 
-/-- `sizeof(struct Header) / 8` in the default build (type, alloc, magic); no result of the model depends on it
-    (`relocate_fits` holds for every header width) -/
-def hdrWords : Nat := 3
+/-- `sizeof(struct Header) / 8` in the default build (type, alloc, magic: counted in include/Cello.h by the translator);
+    no theorem depends on its value (`relocate_fits` holds for every header width) -/
+def hdrWords : Nat := CelloGen.Tree.headerWords
 
 /-- the layout of this Tree's nodes -/
 def Tree.lay (m : Tree α β) : Lay := ⟨hdrWords, m.ksize / 8, m.vsize / 8⟩
@@ -363,18 +407,19 @@ def Tree.mk0 (ks vs : Nat) : Tree α β := ⟨.nil, 0, ks, vs⟩
 
 /-- `Tree_Set` -/
 def Tree.set (cmp : α → α → Ordering) (m : Tree α β) (k : α) (v : β) : Option (Tree α β) :=
-  match insAt cmp m.root [] k v with
+  match insAt (orient CelloGen.Tree.setDescent cmp) m.root [] k v with
   | none => none
   | some (t, fresh) => some { m with root := t, nitems := if fresh then m.nitems + 1 else m.nitems }
 
 /-- `Tree_Get` -/
 def Tree.get (cmp : α → α → Ordering) (m : Tree α β) (k : α) : Outcome β :=
-  match find cmp m.root k with
+  match find (orient CelloGen.Tree.getDescent cmp) m.root k with
   | some v => .ok v
   | none => .raised .KeyError
 
 /-- `Tree_Mem` -/
-def Tree.mem (cmp : α → α → Ordering) (m : Tree α β) (k : α) : Bool := (find cmp m.root k).isSome
+def Tree.mem (cmp : α → α → Ordering) (m : Tree α β) (k : α) : Bool :=
+  (find (orient CelloGen.Tree.memDescent cmp) m.root k).isSome
 
 /-- `Tree_Len` -/
 def Tree.len (m : Tree α β) : Nat := m.nitems
@@ -382,7 +427,7 @@ def Tree.len (m : Tree α β) : Nat := m.nitems
 /-- `Tree_Rem`: KeyError leaves the tree as it was -/
 def Tree.rem [Packed α] [Packed β] (cmp : α → α → Ordering) (m : Tree α β) (k : α) :
     Option (Tree α β × Outcome Unit) :=
-  match remAt cmp m.lay m.root [] k with
+  match remAt (orient CelloGen.Tree.remDescent cmp) m.lay m.root [] k with
   | none => none
   | some none => some (m, .raised .KeyError)
   | some (some t) => some ({ m with root := t, nitems := m.nitems - 1 }, .ok ())
@@ -491,12 +536,13 @@ def Tree.assign (cmp : α → α → Ordering) (dst src : Tree α β) : Option (
   | some (_, false) => none                                  -- iteration did not reach Terminal (excluded by C03_iteration)
   | some (ks, true) => assignLoop cmp src ks { dst.clear with ksize := src.ksize, vsize := src.vsize }
 
-/-- `assign(t, t)`: `if (self is obj) { return; }` — nothing happens -/
+/-- `assign(t, t)`: `if (self is obj) { return; }` — nothing happens (`step` takes this branch iff the source has the guard:
+    `CelloGen.Tree.assignGuardsSelf`) -/
 def Tree.assignSelf (_cmp : α → α → Ordering) (m : Tree α β) : Option (Tree α β × Outcome Unit) :=
   some (m, .ok ())
 
 /-- `assign(t, t)` BEFORE the fix a3140e4 (no `self is obj` test): the object is cleared first, so the loop runs over an
-    empty tree. Not used by `step`; kept for `C03_self_assign_old_refuted`. -/
+    empty tree. Taken by `step` only when the source has no `self is obj` guard; `C03_self_assign_old_refuted`. -/
 def Tree.assignSelfOld (cmp : α → α → Ordering) (m : Tree α β) : Option (Tree α β × Outcome Unit) :=
   Tree.assign cmp m m.clear
 
@@ -626,7 +672,8 @@ def step [Packed α] [Packed β] (cmp : α → α → Ordering) (st : Store (Tre
   | .assign t s =>
     match st.get? t, st.get? s with
     | some m, some src =>
-      (if t = s then Tree.assignSelf cmp m else Tree.assign cmp m src).map (fun r => (st.put t r.1, obsOf r.2))
+      (if t = s then (if CelloGen.Tree.assignGuardsSelf then Tree.assignSelf cmp m else Tree.assignSelfOld cmp m)
+       else Tree.assign cmp m src).map (fun r => (st.put t r.1, obsOf r.2))
     | _, _ => some (st, .noobj)
   | .copy t s =>
     match st.get? s with
